@@ -67,9 +67,10 @@ def jobs(tier):
                            tree="mini:" + "+".join(m), collect_models=1, expect=["deserializer consumes exactly the bytes written"]))
     # size thresholds: the largest string / array a one-byte length field can announce (252), all characters symbolic
     for c in cls:
-        if c["name"] in ("Named", "LengthBytes", "OptionalBound") or (tier != "quick" and c["name"] in ("CountedItems", "ArrayZoo")):
-            cfg = {"lens": [THRESH], "counts": [THRESH]}
-            js.append(dict(name=f"roundtrip[{c['name']},lens={THRESH},counts={THRESH}]", fn="roundtrip", args=[corpus.closure(types, c["instrs"]), c, cfg],
+        if c["name"] in ("Named", "LengthBytes", "OptionalBound", "ByteCounted") or (tier != "quick" and c["name"] in ("CountedItems", "ArrayZoo")):
+            top = 255 if c["name"] == "ByteCounted" else THRESH          # a raw byte counts to 255, an EO char to 252
+            cfg = {"lens": [top], "counts": [top]}
+            js.append(dict(name=f"roundtrip[{c['name']},lens={top},counts={top}]", fn="roundtrip", args=[corpus.closure(types, c["instrs"]), c, cfg],
                            tree="core", collect_models=1, expect=["deserializer consumes exactly the bytes written"]))
     # units of the generated pair corpus that a conservative static classifier (props/unambiguous.py) accepts as
     # wire-unambiguous in the sense of C01's quantifier
